@@ -30,6 +30,14 @@ pub fn vx_bytes1(a: u8) -> (r: [u8; 1]) ensures r@ == d1(a), vx_is_digit(a) ==> 
 pub fn vx_bytes2(a: u8, b: u8) -> (r: [u8; 2]) ensures r@ == d2(a, b), (vx_is_digit(a) && vx_is_digit(b)) ==> vx_all_digits(r@) { proof { reveal(vx_all_digits); reveal(d2); } let r = [a, b]; assert(r@ =~= seq![a, b]); r }
 pub fn vx_bytes3(a: u8, b: u8, c: u8) -> (r: [u8; 3]) ensures r@ == d3(a, b, c), (vx_is_digit(a) && vx_is_digit(b) && vx_is_digit(c)) ==> vx_all_digits(r@) { proof { reveal(vx_all_digits); reveal(d3); } let r = [a, b, c]; assert(r@ =~= seq![a, b, c]); r }
 
+/// lexicographic order on byte strings (the `Ord` of slices)
+pub open spec fn lex_lt(a: Seq<u8>, b: Seq<u8>) -> bool decreases a.len() {
+    if b.len() == 0 { false } else if a.len() == 0 { true } else if a[0] < b[0] { true } else if a[0] > b[0] { false }
+    else { lex_lt(a.subrange(1, a.len() as int), b.subrange(1, b.len() as int)) }
+}
+/// rule R4c: `a < b` on byte slices (TRUSTED: std's slice ordering is lexicographic)
+#[verifier::external_body] pub fn vx_lt_bytes(a: &[u8], b: &[u8]) -> (r: bool) ensures r == lex_lt(a@, b@) { a < b }
+
 /// verified helper used by rule R4b (comparison of a byte slice with a byte-string literal)
 pub fn vx_eq_bytes(a: &[u8], b: &[u8]) -> (r: bool)
     ensures r == (a@ =~= b@)
